@@ -1,7 +1,7 @@
 (* C11 — property theorems about the model of zip_bomb.py / zip_context.py.
    Only statements closed by `exact`, each followed by Print Assumptions. *)
 From Coq Require Import ZArith List Bool Lia.
-From S2T Require Import C11.Model C11.ProofsFloat C11.Proofs C11.ModelNames C11.ModelSession C11.ProofsNames.
+From S2T Require Import C11.Model C11.ProofsFloat C11.Proofs C11.ModelNames C11.ModelSession C11.ModelRead C11.ProofsNames.
 Import ListNotations.
 Open Scope Z_scope.
 
@@ -252,3 +252,40 @@ Example C11_reader_truncates_satisfiable :
     [ {| file_size := 400; compress_size := 20; is_dir := false |} ] = true.
 Proof. vm_compute. reflexivity. Qed.
 Print Assumptions C11_reader_truncates_satisfiable.
+
+(* ---- zip_utils.read_zip_member: what repository code obtains from a member (extension round 2) ---- *)
+(* member.read(info.file_size): whatever the member's data really inflates to (stream oracle), the bytes
+   obtained are between 0 and the size the central directory claims *)
+Theorem C11_read_zip_member_bounded :
+  forall (x : entry) (st : stream),
+    0 <= file_size x -> 0 <= s_avail st ->
+    0 <= read_len (read_zip_member x st) <= file_size x.
+Proof. exact read_zip_member_bounded. Qed.
+Print Assumptions C11_read_zip_member_bounded.
+
+(* ... and the decompressor is never asked for more than max(claim, MIN_READ_SIZE) *)
+Theorem C11_read_zip_member_work_bounded :
+  forall (x : entry) (st : stream),
+    0 <= file_size x -> read_zip_member_work x st <= Z.max (file_size x) MIN_READ_SIZE.
+Proof. exact read_zip_member_work_bounded. Qed.
+Print Assumptions C11_read_zip_member_work_bounded.
+
+(* The reader hypothesis of C11_accepted_output_bounded is discharged for repository reads: for an accepted
+   container and ANY member streams, what read_zip_member obtains is at most max_total in all, max_single per
+   member, and the decompressor's output per read is at most max(max_single, MIN_READ_SIZE). *)
+Theorem C11_repository_reads_bounded :
+  forall (L : limits) (es : list entry) (streams : entry -> stream),
+    limits_exact L = true -> sizes_nonneg (files es) = true -> validate L es = Accept ->
+    (forall x, 0 <= s_avail (streams x)) ->
+    total_out (fun x => read_len (read_zip_member x (streams x))) (files es) <= max_total L
+    /\ (forall x, In x (files es) -> read_len (read_zip_member x (streams x)) <= max_single L
+                                    /\ read_zip_member_work x (streams x) <= Z.max (max_single L) MIN_READ_SIZE).
+Proof. exact repository_reads_bounded. Qed.
+Print Assumptions C11_repository_reads_bounded.
+
+(* the shape it replaced, zf.read(path): the decompressor's output is not bounded by the claim
+   (claimed 65232 bytes, inflates 64 MiB) -- the repaired finding inflate-exceeds-declared-size *)
+Theorem C11_zipfile_read_work_unbounded_refuted :
+  exists (x : entry) (st : stream), 0 <= file_size x /\ zipfile_read_work x st > file_size x + MIN_READ_SIZE.
+Proof. exact zipfile_read_work_unbounded. Qed.
+Print Assumptions C11_zipfile_read_work_unbounded_refuted.
